@@ -122,6 +122,29 @@ func checkC13(c *Ctx) {
 						bad = true
 						continue
 					}
+					// what is stored is the record as decoded: none of its K, V, E is assigned between Decode and the store (e.g. an
+					// expiry "filled in" for records that have none: never-expiring entries would start to expire after a restore)
+					afterDec := false
+					for _, ev := range g.events {
+						if ev == dec {
+							afterDec = true
+							continue
+						}
+						if !afterDec || ev.Kind != pw.EvFieldWrite || ev.Field == nil || bad {
+							continue
+						}
+						switch fname(ev.Field) {
+						case "K", "V", "E":
+						default:
+							continue
+						}
+						recv := ev.Recv
+						onTarget := recv == tgt || recv == pointee(tgt) || recv != nil && tgt.Kind == pw.KAddr && (recv.Obj != nil && recv.Obj == tgt.Obj || recv == tgt.Src)
+						if onTarget {
+							r.Bad("R13.1", name, "restored-entry-modified", c.Pos(ev.Pos), "field "+fname(ev.Field)+" of the decoded record is assigned before it is stored: the restored entry differs from the dumped one", shortTrace(p))
+							bad = true
+						}
+					}
 					for _, ev := range g.events {
 						var v *pw.Val
 						if b.Sharded && ev.Kind == pw.EvMapInsert && isShardData(ev) {
@@ -246,6 +269,13 @@ func checkC13(c *Ctx) {
 	}
 	c.c13ShardMaps()
 	c.c13Adapter()
+	// Restore returns: the shard lock taken for a record is released before the next record is handled (C08 R08.5)
+	c.borrowKinds("C08", func() {
+		for _, b := range backends {
+			c.c08Backend(b)
+		}
+		c.c08DeferredUnlockInLoop()
+	}, "R13.3", "Restore:lock-per-record", []string{"R08.5"}, "deferred-unlock-in-loop", "lock-leak", "relock")
 	// relaying caches through HTTPTransfer: each fetched dump is restored into the cache it was requested for (C14 R14.2)
 	c.borrow("C14", func() {
 		c.c14Import()
